@@ -79,6 +79,40 @@ func generators(r *vlib.Run) {
 				}
 			}
 			checkShell(c, "NewMeshPolar", model3d.NewMeshPolar(f, stops), 2, map[string]interface{}{"stops": stops, "radius_kind": k, "a": a, "b": b, "scale": scale})
+			// the 2D polar outline is closed whatever the radius function does (documented: "even
+			// if the polar function does not reach its original value at 2*pi radians, the mesh
+			// will be closed"): pure functions, a spiral, and callbacks that do not return the same
+			// value twice for one angle (radii read one per call from a table, seeded roughness)
+			{
+				k2 := rng.Intn(4)
+				calls := 0
+				table := make([]float64, 4*stops+8)
+				for i := range table {
+					table[i] = scale * (0.5 + rng.Float64())
+				}
+				var f2 func(theta float64) float64
+				switch k2 {
+				case 0:
+					f2 = func(theta float64) float64 { return scale * (1.5 + a*math.Sin(float64(b)*theta)) }
+				case 1:
+					f2 = func(theta float64) float64 { return scale * (1 + theta) }
+				default:
+					f2 = func(theta float64) float64 {
+						calls++
+						return table[calls%len(table)]
+					}
+				}
+				segs := vlib.Segs(model2d.NewMeshPolar(f2, stops))
+				t2 := vlib.AnalyzeSegs(segs)
+				c.Count("gen.NewMeshPolar2D.outlines", 1)
+				if k2 >= 2 {
+					c.Count("gen.NewMeshPolar2D.radius_callbacks_with_state", 1)
+				}
+				if !t2.ClosedOrientedManifold() || t2.Components != 1 || len(segs) != stops {
+					c.Violation("model2d.NewMeshPolar/closed-outline", fmt.Sprintf("%d segments for %d stops, %d components, problems %v", len(segs), stops, t2.Components, t2.Problems),
+						map[string]interface{}{"stops": stops, "radius_kind": []string{"smooth", "spiral", "one value per call from a table", "one value per call from a table"}[k2], "scale": scale})
+				}
+			}
 		case 2:
 			n := 1 + rng.Intn(r.N(6, 12))
 			m := model3d.NewMeshIcosphere(ctr, scale, n)
